@@ -202,6 +202,13 @@ pub fn handle_setrange(storage: &Arc<StorageEngine>, db: usize, parts: &[RespFra
         _ => return Ok(RespFrame::error("ERR invalid value format")),
     };
     
+    // Strings are limited to 512 MB; an offset beyond that would otherwise be used to size the
+    // padded value (overflowing, or allocating whatever the client asked for)
+    const MAX_STRING_LEN: usize = 512 * 1024 * 1024;
+    if offset.checked_add(value.len()).map(|end| end > MAX_STRING_LEN).unwrap_or(true) {
+        return Ok(RespFrame::error("ERR string exceeds maximum allowed size (512MB)"));
+    }
+    
     // Set range and handle WrongType errors properly
     match storage.setrange(db, key, offset, value) {
         Ok(new_len) => Ok(RespFrame::Integer(new_len as i64)),
